@@ -1,6 +1,8 @@
 /- Driver/ApeFile.lean — APEv2 file container commands -/
 import MutagenModel.Model.Container.ApeFile
+import MutagenModel.Model.Container.ApeFileM
 import Driver.Util
+import Driver.FileOps
 namespace Driver
 open Mutagen Mutagen.ApeF
 
@@ -12,6 +14,12 @@ def apefOp (a : Args) : String :=
   match a.str "op" with
   | "save" => ex (save (a.bytes "data") (a.bytes "tag"))
   | "delete" => ex (delete (a.bytes "data"))
+  -- the FileM programs with a fault schedule / capacity (`fail=<i>:<err> short=<i>:<k> cap=<n> leak=<n> B=<n>`);
+  -- `hdr= items= ftr=` the three writes, `empty=1` a tag without items (nothing is written)
+  | "savem" =>
+    let tag3 := if a.nat "empty" 0 == 1 then none else some (a.bytes "hdr", a.bytes "items", a.bytes "ftr")
+    showResult (saveM (a.nat "B" 1048576) tag3 (envOf a) { data := a.bytes "data" })
+  | "deletem" => showResult (deleteM (a.nat "B" 1048576) (envOf a) { data := a.bytes "data" })
   | "locate" =>
     match locate (a.bytes "data") with
     | .ok (some L) => s!"ok start={L.start} end={L.endd} atstart={if L.isAtStart then 1 else 0}"
